@@ -268,7 +268,7 @@ func c18Boot() {
 	})
 }
 
-func TestC18Postgres(tt *testing.T)     { c18RapidUnit(tt, "TestC18Postgres") }
-func TestC18PostgresEnum(tt *testing.T) { c18EnumUnit(tt, "TestC18PostgresEnum") }
+func TestC18Postgres(tt *testing.T)      { c18RapidUnit(tt, "TestC18Postgres") }
+func TestC18PostgresEnum(tt *testing.T)  { c18EnumUnit(tt, "TestC18PostgresEnum") }
 func TestC18PostgresStall(tt *testing.T) { c18StallUnit(tt, "TestC18PostgresStall") }
-func TestC18PostgresShow(tt *testing.T) { c18ShowUnit(tt) }
+func TestC18PostgresShow(tt *testing.T)  { c18ShowUnit(tt) }
